@@ -1,6 +1,8 @@
 import Comdex.Model.Vault
 import Comdex.Model.Effects
 import Comdex.Gen.Effects_vault
+import Comdex.Gen.Effects_liquidationsV2
+import Comdex.Gen.Effects_esm
 /-!
 # C01 (and C02, C03) — the EFFECT SKELETON of the vault handlers is the model's
 
@@ -51,6 +53,8 @@ two places where the positivity class of model and code differ, listed explicitl
 | … MsgDepositAndDraw = deposit then draw | `depositAndDraw_effects` |
 | … MsgCreateStableMint / MsgDepositStableMint / MsgWithdrawStableMint | `stableCreate_effects`, `stableDeposit_effects`, `stableWithdraw_effects` |
 | MsgVaultInterestCalc makes no bank call | `interestCalc_effects` |
+| liquidationsV2 `LiquidateIndividualVault` moves the collateral vault → auction custody, if positive = `seizeOps` | `seize_effects` (`custody_go_all`) |
+| x/esm redemption of a vault / stable-mint vault: one unguarded transfer vault → esm per vault, both branches = `esmVaultOps` / `esmStableOps` up to the positivity class | `esm_effects` |
 | the model's handlers run exactly these lists, then only touch records | `close_runs_ops`, `repay_runs_ops`, `create_runs_ops`, `deposit_runs_ops`, `withdraw_runs_ops`, `draw_runs_ops` |
 | every bank call of the eleven handlers is classified, no opaque call | `vault_all_classified` |
 | the handler body writes its own records only after its last bank call (every path) | `vault_writes_after_bank` |
@@ -63,7 +67,7 @@ open Comdex Comdex.Vault Comdex.Effects Comdex.Gen.Effects
 /-! ## roles -/
 
 inductive Role where
-  | vm | cm | signer
+  | vm | cm | signer | am | em
   deriving DecidableEq, Repr
 
 inductive DRole where
@@ -87,7 +91,8 @@ def vaultRoles : Roles Role DRole where
 /-! ## the model's side -/
 
 def roleOf (from_ a : Nat) : Option Role :=
-  if a = vm then some .vm else if a = cm then some .cm else if a = from_ then some .signer else none
+  if a = vm then some .vm else if a = cm then some .cm else if a = am then some .am else if a = em then some .em
+  else if a = from_ then some .signer else none
 
 def dRoleOf (p : Product) (d : Nat) : Option DRole :=
   if d = p.denomIn then some .coll else if d = p.denomOut then some .debt else none
@@ -114,12 +119,16 @@ def modelSkel (p : Product) (from_ : Nat) : List BankOp → Option (List VSkel)
 structure Wf (p : Product) (from_ : Nat) : Prop where
   nvm : from_ ≠ vm
   ncm : from_ ≠ cm
+  nam : from_ ≠ am
+  nem : from_ ≠ em
   nd  : p.denomIn ≠ p.denomOut
 
 theorem role_vm (f : Nat) : roleOf f vm = some .vm := by simp [roleOf]
 theorem role_cm (f : Nat) : roleOf f cm = some .cm := by simp [roleOf, cm, vm]
+theorem role_am (f : Nat) : roleOf f am = some .am := by simp [roleOf, cm, vm, am]
+theorem role_em (f : Nat) : roleOf f em = some .em := by simp [roleOf, cm, vm, am, em]
 theorem role_from {p : Product} {f : Nat} (h : Wf p f) : roleOf f f = some .signer := by
-  simp [roleOf, h.nvm, h.ncm]
+  simp [roleOf, h.nvm, h.ncm, h.nam, h.nem]
 theorem drole_in (p : Product) : dRoleOf p p.denomIn = some .coll := by simp [dRoleOf]
 theorem drole_out {p : Product} {f : Nat} (h : Wf p f) : dRoleOf p p.denomOut = some .debt := by
   have : p.denomOut ≠ p.denomIn := fun e => h.nd e.symm
@@ -317,6 +326,59 @@ theorem stableWithdraw_effects (p : Product) (from_ : Nat) (amt : Int) (h : Wf p
 theorem interestCalc_effects : goSkel vaultRoles (valOf []) h_vault_MsgVaultInterestCalc = some ([] : List VSkel) :=
   interestCalc_go
 
+/-! ## seizure and emergency redemption (other modules moving vault custody) -/
+
+/-- role table of the hand-overs out of vault custody: liquidationsV2 `LiquidateIndividualVault`, x/esm
+`SetUpCollateralRedemptionForVault` / `…ForStableVault` (exact match on the ABSTRACT texts) -/
+def custodyRoles : Roles Role DRole where
+  abstract := true
+  acct := fun t =>
+    if t == "\"vaultV1\"" then some .vm
+    else if t == "\"auctionsV2\"" then some .am
+    else if t == "\"esmV1\"" then some .em
+    else none
+  denom := fun t =>
+    if t == "asset.GetAsset(asset.GetPair(…).AssetIn).Denom" then some .coll
+    else none
+
+/-- the vault is under-collateralised (liquidate.go:123: `CalculateCollateralizationRatio(…).LT(liquidation ratio)`) -/
+def isLiquidatable (t : String) : Bool := t.startsWith "vault.CalculateCollateralizationRatio("
+
+/-- condition table of the three hand-overs: the seizure happens when the ratio test holds; the esm steps run once per vault of
+the app (`….AppId == appID`, inside `range vault.GetVaults()`), in either branch of "first redemption of this app?" -/
+def custodyVal (first : Bool) : Val := fun t =>
+  if isLiquidatable t then some true
+  else if t == "range vault.GetVaults()" || t == "range vault.GetStableMintVaults()" then some true
+  else if t == "each(vault.GetVaults()).AppId == appID" || t == "each(vault.GetStableMintVaults()).AppId == appID" then some true
+  else if t == "!esm.GetDataAfterCoolOff(appID)#2" then some first
+  else none
+
+def goCustody (first : Bool) : Prop :=
+  goSkel custodyRoles (custodyVal first) h_liquidationsV2_LiquidateIndividualVault = some [mk .send sVm (some .am) .coll true] ∧
+  goSkel custodyRoles (custodyVal first) h_esm_SetUpCollateralRedemptionForVault = some [mk .send sVm (some .em) .coll false] ∧
+  goSkel custodyRoles (custodyVal first) h_esm_SetUpCollateralRedemptionForStableVault = some [mk .send sVm (some .em) .coll false]
+
+instance (b : Bool) : Decidable (goCustody b) := by unfold goCustody; exact inferInstance
+
+theorem custody_go_all : goCustody true ∧ goCustody false := by decide +kernel
+
+theorem custody_go (b : Bool) : goCustody b := by cases b; exact custody_go_all.2; exact custody_go_all.1
+
+/-- liquidationsV2 hand-over: one transfer vault → auction custody of the collateral, only if positive = `seizeOps` -/
+theorem seize_effects (p : Product) (from_ : Nat) (v : VaultRec) (first : Bool) (h : Wf p from_) :
+    goSkel custodyRoles (custodyVal first) h_liquidationsV2_LiquidateIndividualVault = modelSkel p from_ (seizeOps p v) := by
+  rw [(custody_go first).1]; simp [modelSkel, opSkel, role_vm, role_am, drole_in, mk, sVm]
+
+/-- emergency redemption of a vault / a stable-mint vault: one transfer vault → esm account per vault of the app, in both
+branches; the code sends UNGUARDED where the model has `.sendPos` (x/bank drops zero coins): `relaxAt [0]` -/
+theorem esm_effects (p : Product) (from_ : Nat) (v : VaultRec) (amountIn : Int) (first : Bool) (h : Wf p from_) :
+    goSkel custodyRoles (custodyVal first) h_esm_SetUpCollateralRedemptionForVault
+      = (modelSkel p from_ (esmVaultOps p v)).map (relaxAt [0]) ∧
+    goSkel custodyRoles (custodyVal first) h_esm_SetUpCollateralRedemptionForStableVault
+      = (modelSkel p from_ (esmStableOps p amountIn)).map (relaxAt [0]) := by
+  rw [(custody_go first).2.1, (custody_go first).2.2]
+  constructor <;> simp [modelSkel, opSkel, role_vm, role_em, drole_in, mk, sVm, relaxAt]
+
 /-! ## the model's handlers run exactly their lists (semantic anchor of the `…Ops` names) -/
 
 theorem close_runs_ops (s s' : State) (p : Product) (e : Env) (from_ app prod vaultId : Nat)
@@ -460,9 +522,9 @@ def pEx : Product :=
     outOracle := false, outPrice := 1000000 }
 def vEx : VaultRec := { id := 1, owner := 10, product := 1, amountIn := 500, amountOut := 100, interest := 7, closingFee := 3 }
 
-example : Wf pEx 10 := ⟨by decide, by decide, by decide⟩
+example : Wf pEx 10 := ⟨by decide, by decide, by decide, by decide, by decide⟩
 example : modelSkel pEx 10 (closeOps pEx 10 vEx) = goSkel vaultRoles (valOf []) h_vault_MsgClose :=
-  (close_effects pEx 10 vEx ⟨by decide, by decide, by decide⟩).symm
+  (close_effects pEx 10 vEx ⟨by decide, by decide, by decide, by decide, by decide⟩).symm
 example : (modelSkel pEx 10 (closeOps pEx 10 vEx)).map (·.length) = some 5 := by decide +kernel
 example : modelSkel pEx 10 (repayOps pEx 10 vEx 5) ≠ modelSkel pEx 10 (repayOps pEx 10 vEx 50) := by decide +kernel
 example : modelSkel pEx 10 (createOps pEx 10 500 100) = some (mk .send sSig sVm .coll true :: skMintFee) := by decide +kernel
